@@ -65,7 +65,7 @@ Section Lazy.
                 | Some cur1 =>
                   let rets' := store_vals (o_rets cur1) outs in
                   let g2 := {| g_ops := set_nth (g_ops g1) (fst a) (set_rets cur1 rets');
-                               g_log := g_log g1 ++ [fst a] |} in
+                               g_log := g_log g1 ++ [fst a]; g_blog := g_blog g1 |} in
                   match nth_error outs (snd a) with
                   | Some v => Some (v, g2, e2)
                   | None => None                        (* operator did not assign its output *)
